@@ -61,6 +61,7 @@ def run(ctx):
   from sa import pitfalls
   pitfalls.apply(ctx, 'PITFALL', [w0, r], ['stale-sibling'], {
       'stale-sibling': 'every interval after the first is measured with the first element\'s scale: tempo changes after the second are placed at the wrong time'})
+  tempo_ticks(ctx, w0, 'TEMPO/tick-from-table')
   grouping.check(ctx, w0, 'GROUP/sort-refines-group-key')
   grouping.check(ctx, r, 'GROUP/sort-refines-group-key')
   order(ctx, w0)       # the generic order analysis first: it needs no anchor, so a reshaped accumulation is still judged
@@ -474,6 +475,56 @@ def reader_boundary(ctx, r, fd, off):
         ctx.ob('MINOR/reader-boundary', r, t, ok, 'the reader reports MINOR exactly for key numbers from %d up (%s)' % (off, how) if ok else
                'the reader reports MINOR under %s, but pretty_midi numbers the minor keys from %d: key number %d is read back with the wrong mode' % (how, off, off),
                construct='minor side of the key-number test starts at %d' % off, definite=True)
+
+def tempo_ticks(ctx, w0, rule):
+  """Location-independent: a tempo change is stored in the file at a whole tick.  The tick of each change must be obtained from
+  the tick <-> time table as it stands *with all earlier changes at their rounded ticks* (PrettyMIDI.time_to_tick after
+  _update_tick_to_time).  Counting ticks from the previous change's *stored* time instead carries the rounding error of every
+  change into all later ones.  The tick component of every tuple appended to _tick_scales is followed to its definition."""
+  fn = w0.node
+  n = 0
+  for c in ast.walk(fn):
+    if not (isinstance(c, ast.Call) and isinstance(c.func, ast.Attribute) and c.func.attr == 'append' and norm_text(c.func.value).endswith('._tick_scales') and c.args and
+            isinstance(c.args[0], ast.Tuple) and len(c.args[0].elts) == 2):
+      continue
+    n += 1
+    t = c.args[0].elts[0]
+    d = U.reaching_def(fn, t.id, c) if isinstance(t, ast.Name) else t
+    cons = 'the tick of a tempo change comes from the current tick/time table'
+    loop = next((lp for lp in U.enclosing_loops(fn, c) if isinstance(lp, ast.For)), None)
+    if isinstance(d, ast.Call) and isinstance(d.func, ast.Attribute) and d.func.attr == 'time_to_tick' and d.args and isinstance(d.args[0], ast.Attribute) and d.args[0].attr == 'time':
+      upd = loop is not None and any(isinstance(x, ast.Call) and isinstance(x.func, ast.Attribute) and x.func.attr == '_update_tick_to_time' for s_ in loop.body for x in ast.walk(s_))
+      ctx.ob(rule, w0, c, upd, 'tick = time_to_tick(tempo.time) and the table is rebuilt after every change' if upd else
+             'the tick/time table is not rebuilt (_update_tick_to_time) inside the tempo loop: the next time -> tick conversion does not see this tempo change',
+             construct=cons, definite=not upd and loop is not None)
+      continue
+    carried = []
+    if d is not None and loop is not None and isinstance(loop.target, ast.Name):
+      v = loop.target.id
+      stores = {}
+      for st in U.walk_stmts(loop):
+        if isinstance(st, ast.Assign):
+          for tg in st.targets:
+            if isinstance(tg, ast.Name):
+              stores.setdefault(tg.id, []).append(st.value)
+            elif isinstance(tg, (ast.Tuple, ast.List)) and isinstance(st.value, (ast.Tuple, ast.List)) and len(tg.elts) == len(st.value.elts):
+              for e_, val in zip(tg.elts, st.value.elts):
+                if isinstance(e_, ast.Name):
+                  stores.setdefault(e_.id, []).append(val)
+      for nm in sorted(set(x.id for x in ast.walk(d) if isinstance(x, ast.Name))):
+        if any(isinstance(val, ast.Attribute) and val.attr == 'time' and norm_text(val.value) == v for val in stores.get(nm, [])):
+          carried.append(nm)
+    if carried:
+      ctx.ob(rule, w0, c, False, 'the tick %s is counted from %s, the *stored* time of the previous tempo change, but that change sits at its rounded tick: the rounding error of '
+             'every change (up to half a tick) is carried into all later ones, so after a few off-grid changes a tempo is more than a tick away from its time' % (
+                 norm_text(d)[:90], ', '.join(sorted(carried))), construct=cons, definite=True)
+    else:
+      why = 'cannot classify: the tick %s is not pm.time_to_tick(<tempo>.time)' % (norm_text(d)[:80] if d is not None else norm_text(t))
+      ctx.ob(rule, w0, c, False, why, construct=cons, unknown=why)
+  if n == 0:
+    why = 'cannot classify: no append to _tick_scales found'
+    ctx.ob(rule, w0, fn, False, why, construct='tempo changes are appended to _tick_scales', unknown=why)
+
 
 def tempo(ctx, w):
   fn = w.node
